@@ -311,7 +311,35 @@ def higham_fails(case):
     return None
 
 
+def svd_point_fails(case):
+    """f(x) = sum(s*s), s = singular values of reshape(x, (m, n)) -- the polynomial |x|^2 -- recorded at a generic point and
+    evaluated at points with coinciding / vanishing singular values: gradient 2x, Hessian 2I, as in forward mode"""
+    m, n = case['shape']
+    xr, xe = np.array(case['xr']), np.array(case['xe'])
+    cg = algopy.CGraph()
+    fx = algopy.Function(xr.copy())
+    U_, s_, V_ = algopy.svd(algopy.reshape(fx, (m, n)))
+    fy = algopy.sum(s_ * s_)
+    cg.trace_off()
+    cg.independentFunctionList = [fx]
+    cg.dependentFunctionList = [fy]
+    try:
+        with np.errstate(all='ignore'):
+            g = cg.gradient(xe)
+            vj = cg.vec_jac(np.array([1.5]), xe)
+            H = cg.hessian(xe)
+    except Exception as ex:
+        return 'svd-point-exception: %s' % (str(ex).strip().splitlines()[-1][:100])
+    if not close(g, 2 * xe, 1e-8) or not close(vj, 3 * xe, 1e-8):
+        return 'svd-point-gradient: the gradient of sum(s*s) at a matrix with coinciding / vanishing singular values is not 2x (got %s)' % np.asarray(g).tolist()
+    if not close(H, 2 * np.eye(xe.size), 1e-7):
+        return 'svd-point-hessian: the Hessian of sum(s*s) at a matrix with coinciding / vanishing singular values is not 2I'
+    return None
+
+
 def replay_case(ctx, case):
+    if case.get('op') == 'svd-point':
+        return svd_point_fails(case)
     if case.get('op') == 'poly':
         return poly_fails(case)
     if case.get('op') == 'higham':
@@ -340,6 +368,14 @@ def run(ctx):
         if len(ctx.samples) < 2 and len(case['prog']['steps']) >= 3:
             ctx.samples.append(to_jsonable(case))
         f = drivers_fail(case)
+        if f:
+            ctx.report(case, 'failure', f)
+    for shape, xe in (((2, 2), [1., 0., 0., 1.]), ((2, 2), [0., 2., -2., 0.]), ((2, 2), [3., 0., 0., -3.]), ((2, 3), [1., 0., 0., 0., 0., 0.]),
+                      ((2, 3), [1., 0., 0., 0., 1., 0.])):
+        case = {'op': 'svd-point', 'shape': list(shape), 'xr': np.arange(1., len(xe) + 1.) + rand_coeffs(rng, (len(xe),), -0.25, 0.25), 'xe': np.array(xe)}
+        ctx.evaluations += 1
+        ctx.count('svd-at-repeated-singular-values')
+        f = svd_point_fails(case)
         if f:
             ctx.report(case, 'failure', f)
     for i in range(12 if ctx.tier == 'quick' else 120):
